@@ -275,8 +275,12 @@ def run_repro_job(job, seed):
             for mp_ in job['max_processes']:
                 if mode == 'pool' or mp_ == 0:
                     orders = [None]
-                else:
+                elif n <= 4:
                     orders = [list(p) for p in itertools.permutations(range(n))]
+                else:
+                    # too many permutations: submission order, its reverse and two rotations (stated in the rule)
+                    base = list(range(n))
+                    orders = [base, base[::-1], base[3:] + base[:3], base[1::2] + base[0::2]]
                 for order in orders:
                     cells += 1
                     try:
